@@ -379,6 +379,7 @@ type vCase struct {
 	Shape    int      `json:"shape"`
 	Header   string   `json:"header,omitempty"`
 	Line     int      `json:"gen_line"`
+	Seed     int64    `json:"verif_seed"` // the keys and all random contents derive from it
 }
 
 func hdrJSON(b *types.Block) string {
@@ -721,6 +722,7 @@ func (h *vHarness) compare(res *verifkit.Result, check string, model, code bool,
 	if model == code {
 		return
 	}
+	cs.Seed = verifkit.Seed()
 	names := map[string]string{"sig": "DPoS.VerifySign", "bp": "DPoS.IsBlockValid", "ts": "DPoS.VerifyTimestamp"}
 	kind := "rejected-legitimate"
 	if code {
